@@ -23,7 +23,7 @@ Init == \/ \E a \in Asts : \E b \in Asts : \E c \in Asts :
              cs = [kind |-> "tree", rendered |-> RenderDoc(d), expected |-> EvalDoc(d, Env), escaped |-> EscapeDoc(RenderDoc(d)),
                    shape |-> SameShape(d, EvalDoc(d, Env))]
         \/ \E kind \in {"boolean", "integer", "number"} : \E text \in BoolTexts \cup {"0", "3", "42", "0.5", "1.5", "maybe", "3x", "x.y", ""} :
-           \E style \in {"var", "default", "split"} :
+           \E style \in {"var", "default", "split", "quoted"} :
              cs = [kind |-> "typed", ty |-> kind, text |-> text, style |-> style, valid |-> Cast(kind, text), invalid |-> ClearlyInvalid(kind, text),
                    boolValue |-> (kind = "boolean" /\ Cast(kind, text) /\ BoolValue(text))]
 Next == UNCHANGED cs
